@@ -27,6 +27,7 @@ def run(rep, prog, tier):
     r6(rep, prog)
     r7(rep, prog)
     r8(rep, prog)
+    r9(rep, prog)
 
 
 def r7(rep, prog):
@@ -82,6 +83,35 @@ def r8(rep, prog):
     rep.check(not bad, R, "after the lock file exists, every exit has passed the guard (or a delete)", "%d owner event(s)" % len(owners),
               "try_acquire_lock can return (with an error) after the lock file was created without having built the DirectoryLockGuard and without deleting the file: the lock file stays behind, "
               "no DirectoryLock owns it, and every later attempt to create a writer fails with LockBusy", site=site(b, bad[0]) if bad and bad[0] else b.span)
+
+
+def r9(rep, prog):
+    """rollback does not lose the lock when the replacement writer cannot be built"""
+    R = "C18-R9"
+    rep.rule(R, "the lock survives a failed rollback: IndexWriter::rollback takes the DirectoryLock out of self (Option::take) and hands it to IndexWriter::new by value; every error exit of rollback reachable after the take must put a lock back into self._directory_lock — otherwise a rollback that fails (e.g. meta.json unreadable for a moment) drops the lock while the old writer object is still alive: a second writer can be created next to it, and a retried rollback panics on the missing lock")
+    fid = IW + "::<D>::rollback"
+    b = get_body(rep, prog, R, fid)
+    if b is None:
+        return
+    takes = [bi for bi, t in b.calls() if (t.get("f") or "").endswith("Option::<T>::take")]
+    if not rep.check(len(takes) >= 1, R, "rollback takes the lock out of self", "%d take()" % len(takes), "cannot establish: no Option::take in rollback", site=b.span):
+        return
+    from ..mergecov import Aliases
+    al = Aliases(b, {1: "self"})
+    restores = []
+    for bi in b.normal_blocks():
+        for i, st in enumerate(b.stmts(bi)):
+            if not is_bare(st["d"]):
+                r = al.resolve(st["d"])
+                if r and r[0] == "self" and (r[1] == () or r[1][:1] == (("f", "_directory_lock"),)):
+                    restores.append(Ev(bi, "stmt", i))
+    eb = b.error_blocks()
+    from ..model import reach_positions
+    reached = reach_positions(b, restores, starts=tuple(b.succ(takes[0])))
+    bad = [e for e in sorted(eb) if e in reached and reached[e] >= 0 and e in b.reachable(tuple(b.succ(takes[0])))]
+    rep.check(not bad, R, "a failed rollback keeps the writer lock", "every error exit after take() has stored a lock (or a whole writer) back into self",
+              "IndexWriter::rollback can return an error after it took the DirectoryLock out of self without putting one back (IndexWriter::new consumed and dropped it): the lock file is released while the old "
+              "writer is still alive — a second writer can be created — and calling rollback again panics on the missing lock", site=site(b, bad[0]) if bad else b.span)
 
 
 def r6(rep, prog):
